@@ -10,6 +10,9 @@ checks = sys.argv[2:]
 meta = json.load(open(f'{src}/meta.json'))
 prop = meta['property']
 name = f"{prop}-{os.path.basename(src)}"
+m2 = re.search(r'seed2_(C\d+)/(m\d+|alt_m\d+)$', src)
+if m2:
+    name = f"{prop}-r2-{m2.group(1)}{m2.group(2)}"   # round 2: <property>-r2-<agent><mK>
 if not checks: checks = [prop]
 WT = '/tmp/wt_confirm'
 env = dict(os.environ, CARGO_NET_OFFLINE='true')
